@@ -846,8 +846,9 @@ class NAryMatrixRelation(AbstractBaseRelation, SimpleRepr):
         """
         if isinstance(var_values, list):
             _, s = self._slice_matrix([v.name for v in self._variables], var_values)
-            # astype copies, and widens an integer matrix when a float is set
-            matrix = self._m.astype(np.result_type(self._m, rel_value))
+            # astype copies, and widens the matrix when the value needs it (a float
+            # in an integer matrix, an int out of the range of an int8 one)
+            matrix = self._m.astype(np.result_type(self._m, np.asarray(rel_value)))
             matrix[s] = rel_value
             return NAryMatrixRelation(self._variables, matrix, name=self.name)
 
@@ -856,8 +857,9 @@ class NAryMatrixRelation(AbstractBaseRelation, SimpleRepr):
             for v in self._variables:
                 values.append(var_values[v.name])
             _, s = self._slice_matrix([v.name for v in self._variables], values)
-            # astype copies, and widens an integer matrix when a float is set
-            matrix = self._m.astype(np.result_type(self._m, rel_value))
+            # astype copies, and widens the matrix when the value needs it (a float
+            # in an integer matrix, an int out of the range of an int8 one)
+            matrix = self._m.astype(np.result_type(self._m, np.asarray(rel_value)))
             matrix[s] = rel_value
             return NAryMatrixRelation(self._variables, matrix, name=self.name)
         raise ValueError("Could not set value, must be list or dict")
